@@ -7,6 +7,7 @@ import (
 	"testing"
 	"time"
 
+	http2 "github.com/dgrr/http2"
 	"github.com/valyala/fasthttp"
 
 	"h2v/rt"
@@ -22,6 +23,10 @@ func TestC11(t *testing.T) {
 		"Monitors: (1) a tag's HEADERS reach a server at most once unless every earlier arrival was disclaimed (stream above a GOAWAY's last-stream-id, or REFUSED_STREAM); (2) no HEADERS arrive on a connection after the ACK of the PING that followed its GOAWAY; (3) a request above last-stream-id is never reported successful and is resolved by the next quiescent point, not at the timeout; "+
 		"(4) a request at or below last-stream-id that the server answers completely yields exactly that response; (5) RoundTrip says retry=true, or re-sends, only for disclaimed requests. Distinct = distinct (level, n, last-stream-id class, code, placement, answer subset, ending).",
 		"virtual time: 'promptly' means at the quiescent point right after the GOAWAY was delivered", "crypto/tls over the in-memory transport for the RoundTrip level")
+	// RoundTrip pools its per-request Ctx objects, each with a timer and a channel that belong to the bubble they were
+	// created in; a pooled Ctx must not travel into a later bubble, so the pool hook withholds them (always legal for a sync.Pool)
+	http2.VerifSetPoolHook(func(kind string, obj any, acquire bool) bool { return kind == "clientctx" && !acquire })
+	defer http2.VerifSetPoolHook(nil)
 	n := r.Pick(400, 25000)
 	for i := 0; i < n; i++ {
 		id := fmt.Sprintf("y%d", i)
